@@ -350,6 +350,12 @@ func Main(id, tier string, seed int64, verifDir string) int {
 		fmt.Fprintln(os.Stderr, "unknown check", id)
 		return 2
 	}
+	// known findings are read from verifDir; evidence and replays go to VERIF_OUT when set
+	// (development runs against a scratch checkout must not overwrite the real evidence)
+	outDir := verifDir
+	if v := os.Getenv("VERIF_OUT"); v != "" {
+		outDir = v
+	}
 	start := time.Now()
 	capd := ch.QuickCap
 	if tier == "thorough" {
@@ -519,7 +525,7 @@ func Main(id, tier string, seed int64, verifDir string) int {
 	if len(report) > 0 && code == 0 {
 		code = 1
 	}
-	rdir := filepath.Join(verifDir, "replays", id)
+	rdir := filepath.Join(outDir, "replays", id)
 	if len(report) > 0 {
 		os.MkdirAll(rdir, 0o755)
 	}
@@ -587,9 +593,9 @@ func Main(id, tier string, seed int64, verifDir string) int {
 		"property_id": id, "tier": tier, "seed": seed, "level": ch.Level, "coverage": cov,
 		"assumptions": assume, "wall_s": wall, "violations": len(report),
 	}
-	os.MkdirAll(filepath.Join(verifDir, "evidence"), 0o755)
+	os.MkdirAll(filepath.Join(outDir, "evidence"), 0o755)
 	b, _ := json.MarshalIndent(evd, "", " ")
-	if err := os.WriteFile(filepath.Join(verifDir, "evidence", id+".json"), b, 0o644); err != nil {
+	if err := os.WriteFile(filepath.Join(outDir, "evidence", id+".json"), b, 0o644); err != nil {
 		fmt.Println("HARNESS-FAULT: cannot write evidence:", err)
 		return 2
 	}
